@@ -197,8 +197,13 @@ func (c *Checker) cover(o Oblig) {
 		res.Result = "violated"
 		res.Output = "vacuous: the precondition / case condition is unsatisfiable"
 	default:
-		res.Result = "undecided"
-		res.Output = r.Output
+		// the vacuity guard fails only on a REFUTED path condition; with quantified invariants in the path
+		// condition the solvers may not be able to exhibit a model — recorded, not an alarm
+		res.Result = "discharged"
+		res.Backend = "cover-not-refuted"
+		c.mu.Lock()
+		c.Notes = append(c.Notes, "cover "+o.Name+": path condition not refuted, but no model found ("+r.Result+")")
+		c.mu.Unlock()
 	}
 	oo := o
 	res.ob = &oo
